@@ -55,3 +55,55 @@ pub fn good_convert(acc: &dyn GroupsAcc, a: &Args) -> Vec<u32> {
 pub fn bad_convert(acc: &dyn GroupsAcc, a: &Args) -> Vec<u32> {
     acc.convert_to_state(&a.arguments, None)
 }
+
+/// emit-siblings-agree
+pub trait GAcc {
+    fn update_batch(&mut self, v: &[u64], g: &[usize]);
+    fn evaluate(&mut self, n: usize) -> Vec<u64>;
+    fn state(&mut self, n: usize) -> Vec<u64>;
+}
+pub struct AvgGood {
+    pub sums: Vec<u64>,
+    pub counts: Vec<u64>,
+}
+impl GAcc for AvgGood {
+    fn update_batch(&mut self, v: &[u64], g: &[usize]) {
+        for (x, i) in v.iter().zip(g) {
+            self.sums[*i] += x;
+            self.counts[*i] += 1;
+        }
+    }
+    fn evaluate(&mut self, n: usize) -> Vec<u64> {
+        let s: Vec<u64> = self.sums.drain(..n).collect();
+        let c: Vec<u64> = self.counts.drain(..n).collect();
+        s.iter().zip(c).map(|(a, b)| a / b.max(1)).collect()
+    }
+    fn state(&mut self, n: usize) -> Vec<u64> {
+        let mut s: Vec<u64> = self.sums.drain(..n).collect();
+        s.extend(self.counts.drain(..n));
+        s
+    }
+}
+/// seeded: state() forgets to drain the counts
+pub struct AvgBad {
+    pub sums: Vec<u64>,
+    pub counts: Vec<u64>,
+}
+impl GAcc for AvgBad {
+    fn update_batch(&mut self, v: &[u64], g: &[usize]) {
+        for (x, i) in v.iter().zip(g) {
+            self.sums[*i] += x;
+            self.counts[*i] += 1;
+        }
+    }
+    fn evaluate(&mut self, n: usize) -> Vec<u64> {
+        let s: Vec<u64> = self.sums.drain(..n).collect();
+        let c: Vec<u64> = self.counts.drain(..n).collect();
+        s.iter().zip(c).map(|(a, b)| a / b.max(1)).collect()
+    }
+    fn state(&mut self, n: usize) -> Vec<u64> {
+        let mut s: Vec<u64> = self.sums.drain(..n).collect();
+        s.extend(self.counts.iter().take(n));
+        s
+    }
+}
